@@ -35,7 +35,7 @@ def oracle(ctx, st, req, agent, rec, trace):
 WEIGHTS = {"new_task": 18, "new_epic": 3, "set": 50, "claim": 14, "claim_oldest": 8, "sequence": 3, "prune_yes": 1, "compact": 1, "plan": 2}
 
 
-def probe_setev_diffs(ctx, diffs):
+def probe_setev_diffs(ctx, diffs, oracle_fn=None):
     """the exhaustive decision table disagrees with the model on these requests: run each one for real — bring a fresh task to the request's
     pre-state through the CLI (when that pre-state is CLI-reachable), issue the same `set`, and let the property's oracle judge the result"""
     import json
@@ -75,7 +75,7 @@ def probe_setev_diffs(ctx, diffs):
             req = {"cmd": "set", "id": tid, "piped": True, "body_stdin": False, "flags": {}, "json": d["req"]["updates"]}
             rec = {"exit": rr["exit"], "pre": pre, "post": post, "errclass": None, "changed": pre.get("n") != post.get("n"), "pre_n": pre.get("n"), "post_n": post.get("n")}
             ctx.count(1, key=("setev-probe", t["st"], t["claimed_by"] != "", common.canon(sorted(d["req"]["updates"]))))
-            if "err" not in pre and "err" not in post and oracle(ctx, st, req, d["req"]["agent"], rec, trace):
+            if "err" not in pre and "err" not in post and (oracle_fn or oracle)(ctx, st, req, d["req"]["agent"], rec, trace):
                 return
         finally:
             st.close()
